@@ -145,6 +145,43 @@ def _top(h, rs, hy, vtop):
 
 AX = [arctan_axioms]
 
+def h_lte_concrete(h, ab, asym, musq, Tn, vw):
+    """concrete twin of `lte-matching` (the fully symbolic obligations become `unknown` as soon as the
+    code deviates): a two-step equation of state with temperature-dependent sound speeds, the real
+    Hydrodynamics object and the real scipy solvers; matchDeflagOrHyb(vw) with v+ from entropy
+    conservation must return a tuple with T+ gamma+ = T- gamma-, equal energy and momentum fluxes,
+    and v-^2 = min(vw^2, cs-^2(T-)) -- for a deflagration and for a hybrid."""
+    import WallGo
+
+    class TwoStep(WallGo.Thermodynamics):
+        def __init__(self):
+            self.aL, self.aH, self.mu2, self.Tnucl = ab, asym, musq, Tn
+            lim = lambda: types.SimpleNamespace(minPossibleTemperature=[0.01, False], maxPossibleTemperature=[5.0, False])  # noqa: E731
+            self.freeEnergyHigh, self.freeEnergyLow = lim(), lim()
+            self.TMinLowT = self.TMinHighT = 0.01
+            self.TMaxLowT = self.TMaxHighT = 5.0
+
+        def pHighT(self, T): return T**4 + (self.aL - self.aH + self.aH * T**2 - self.mu2)**2 - self.mu2**2
+        def dpHighT(self, T): return 4 * T**3 + 4 * self.aH * T * (self.aL - self.aH + self.aH * T**2 - self.mu2)
+        def ddpHighT(self, T): return 12 * T**2 + 8 * self.aH**2 * T**2 + 4 * self.aH * (self.aL - self.aH + self.aH * T**2 - self.mu2)
+        def pLowT(self, T): return T**4 + (self.aL * T**2 - self.mu2)**2 - self.mu2**2
+        def dpLowT(self, T): return 4 * T**3 + 4 * self.aL * T * (self.aL * T**2 - self.mu2)
+        def ddpLowT(self, T): return 12 * T**2 + 8 * self.aL**2 * T**2 + 4 * self.aL * (self.aL * T**2 - self.mu2)
+    th = TwoStep()
+    hy = HY.Hydrodynamics(th, 10, 0.1, 1e-10, 1e-10)
+    h.prove("the wall velocity of this case is below the Jouguet velocity", Cond(b=bool(vw < hy.vJ)))
+    vp, vm, Tp, Tm = (float(x) for x in hy.matchDeflagOrHyb(vw))
+    g2 = lambda v: 1.0 / (1.0 - v * v)  # noqa: E731
+    cs2 = float(th.csqLowT(Tm))
+    wp, wm = float(th.wHighT(Tp)), float(th.wLowT(Tm))
+    h.prove("v-^2 = min(vw^2, cs-^2(T-))", Cond(b=abs(vm * vm - min(vw * vw, cs2)) <= 1e-9))
+    h.prove("entropy: T+ gamma+ = T- gamma-", Cond(b=abs(Tp * g2(vp) ** 0.5 / (Tm * g2(vm) ** 0.5) - 1) <= 1e-7))
+    h.prove("energy flux equal on both sides", Cond(b=abs(wp * g2(vp) * vp / (wm * g2(vm) * vm) - 1) <= 1e-7))
+    h.prove("momentum flux equal on both sides", Cond(
+        b=abs((wp * g2(vp) * vp * vp + float(th.pHighT(Tp))) / (wm * g2(vm) * vm * vm + float(th.pLowT(Tm))) - 1) <= 1e-7))
+    h.prove("hybrid exactly when vw exceeds the sound speed behind the wall", Cond(b=(vm < vw - 1e-12) == (vw * vw > cs2 + 1e-12)))
+
+
 def h_manager_history(h):
     """WallGoManager.wallSpeedLTE answers for the hydrodynamics of the CURRENT set-up: after the
     manager is set up again (new Tn / parameters -> new thermodynamics and hydrodynamics objects,
@@ -193,6 +230,12 @@ HARNESSES = [
                max_paths=400, timeout_s=60, axioms=AX,
                encodes=[HY.Hydrodynamics.findvwLTE, MG.WallGoManager.wallSpeedLTE],
                random_validation=0, concrete_alarms=False),
+    HarnessDef("lte-matching-concrete", h_lte_concrete,
+               [dict(ab=0.4, asym=0.2, musq=0.8, Tn=0.9, vw=0.58), dict(ab=0.4, asym=0.2, musq=0.8, Tn=0.9, vw=0.5),
+                dict(ab=0.2, asym=0.1, musq=0.4, Tn=0.9, vw=0.6)],
+               [dict(ab=a, asym=b, musq=m, Tn=T, vw=v) for (a, b, m, T) in ((0.4, 0.2, 0.8, 0.9), (0.2, 0.1, 0.4, 0.9), (0.4, 0.2, 0.8, 0.85))
+                for v in (0.45, 0.5, 0.56, 0.6, 0.64)], max_paths=2, timeout_s=120,
+               encodes=[HY.Hydrodynamics.matchDeflagOrHyb], random_validation=0),
     HarnessDef("manager-lte-history", h_manager_history, [dict()], max_paths=10, timeout_s=30,
                encodes=[MG.WallGoManager.wallSpeedLTE, MG.WallGoManager._initHydrodynamics], random_validation=1),
 ]
